@@ -50,6 +50,9 @@ pub struct Agg {
     pub cases: u64,
     #[serde(default)]
     pub cases_distinct: u64,
+    /// the child stopped at this index because the execution spun without reaching a seam
+    #[serde(default)]
+    pub aborted_at: Option<u64>,
 }
 
 impl Agg {
@@ -91,14 +94,50 @@ impl Agg {
     }
 }
 
+// ------------------------------------------------------------------------------------------
+// watchdog: a simulated execution that stops reaching seams is an infinite loop in the code
+// under test (nothing in the simulator can pre-empt it)
+// ------------------------------------------------------------------------------------------
+
+pub const SPIN_LIMIT_S: u64 = 20;
+static RUN_STARTED: std::sync::atomic::AtomicU64 = std::sync::atomic::AtomicU64::new(0);
+
+fn now_ms() -> u64 {
+    std::time::SystemTime::now().duration_since(std::time::UNIX_EPOCH).map(|d| d.as_millis() as u64).unwrap_or(1)
+}
+
+/// Start the watchdog thread; `on_spin(task name, steps)` runs on that thread and must end the process.
+pub fn start_watchdog(on_spin: impl Fn(String, u64) + Send + 'static) {
+    std::thread::spawn(move || loop {
+        std::thread::sleep(std::time::Duration::from_millis(250));
+        let s = RUN_STARTED.load(std::sync::atomic::Ordering::SeqCst);
+        if s != 0 && now_ms().saturating_sub(s) > SPIN_LIMIT_S * 1000 {
+            let (task, steps) = dsim::RUNNING_TASK.lock().map(|g| g.clone()).unwrap_or_default();
+            on_spin(task, steps);
+            std::process::exit(2);
+        }
+    });
+}
+
+pub fn spin_violation(prop: &str, task: &str, steps: u64) -> Violation {
+    Violation {
+        property: prop.to_string(),
+        class: "task_spins_without_io".into(),
+        signature: format!("{}|task_spins_without_io", prop),
+        detail: format!("task {} ran for more than {} s of wall-clock time after scheduler step {} without reaching any seam (no socket, poll, clock, lock, timer or sleep call): it is spinning inside the code under test", task, SPIN_LIMIT_S, steps),
+    }
+}
+
 pub struct OneRun {
     pub out: exec::RunOut,
     pub co: CheckOut,
 }
 
 pub fn run_one(prop: &Property, plan: &Plan, tape: dsim::Tape) -> OneRun {
+    RUN_STARTED.store(now_ms(), std::sync::atomic::Ordering::SeqCst);
     let out = exec::run(plan, tape);
     let co = (prop.check)(plan, &out);
+    RUN_STARTED.store(0, std::sync::atomic::Ordering::SeqCst);
     OneRun { out, co }
 }
 
@@ -151,7 +190,22 @@ fn absorb(agg: &mut Agg, plan: &Plan, idx: u64, r: &OneRun) {
 /// child process: run indices start, start+stride, ... (count of them)
 pub fn worker(id: &str, tier: Tier, base: u64, start: u64, stride: u64, total: u64, out_path: &str, deadline_s: f64) {
     let prop = scen::find(id).expect("unknown property");
-    let mut agg = Agg::default();
+    let agg = std::sync::Arc::new(std::sync::Mutex::new(Agg::default()));
+    let cur = std::sync::Arc::new(std::sync::Mutex::new((0u64, 0u64, String::new())));
+    {
+        let (agg, cur, out_path, id) = (agg.clone(), cur.clone(), out_path.to_string(), id.to_string());
+        start_watchdog(move |task, steps| {
+            let (idx, seed, scenario) = cur.lock().map(|g| g.clone()).unwrap_or_default();
+            let mut a = agg.lock().map(|g| g.clone()).unwrap_or_default();
+            a.evaluations += 1;
+            a.violating_runs += 1;
+            *a.scenarios.entry(scenario).or_insert(0) += 1;
+            a.found.push(Found { seed, idx, violation: spin_violation(&id, &task, steps) });
+            a.aborted_at = Some(idx);
+            let _ = std::fs::write(&out_path, serde_json::to_vec(&a).unwrap());
+            std::process::exit(0);
+        });
+    }
     let t0 = Instant::now();
     let mut idx = start;
     while idx < total {
@@ -160,12 +214,14 @@ pub fn worker(id: &str, tier: Tier, base: u64, start: u64, stride: u64, total: u
         }
         let seed = scen::run_seed(base, idx);
         let plan = (prop.gen)(seed, idx, tier);
+        *cur.lock().unwrap() = (idx, plan.seed, plan.scenario.clone());
         let r = run_one(&prop, &plan, dsim::Tape::search(plan.seed));
-        absorb(&mut agg, &plan, idx, &r);
+        absorb(&mut agg.lock().unwrap(), &plan, idx, &r);
         idx += stride;
     }
-    agg.busy_s = t0.elapsed().as_secs_f64();
-    std::fs::write(out_path, serde_json::to_vec(&agg).unwrap()).expect("write child result");
+    let mut a = agg.lock().unwrap().clone();
+    a.busy_s = t0.elapsed().as_secs_f64();
+    std::fs::write(out_path, serde_json::to_vec(&a).unwrap()).expect("write child result");
 }
 
 // ------------------------------------------------------------------------------------------
@@ -423,7 +479,19 @@ pub fn replay_file(path: &str) -> i32 {
             return 2;
         }
     };
-    let r = run_one(&prop, &rep.plan, dsim::Tape::replay(rep.tape.clone()));
+    {
+        let (p, path) = (rep.property.clone(), path.to_string());
+        let expected_spin = rep.violation.class == "task_spins_without_io";
+        start_watchdog(move |task, steps| {
+            let v = spin_violation(&p, &task, steps);
+            println!("reproduced: {} — {}", v.signature, v.detail);
+            println!("VIOLATION property={} replay={}", p, path);
+            std::process::exit(if expected_spin { 1 } else { 2 });
+        });
+    }
+    // a recorded spin is replayed in search mode from the plan's seed (no tape was recorded)
+    let tape = if rep.violation.class == "task_spins_without_io" { dsim::Tape::search(rep.plan.seed) } else { dsim::Tape::replay(rep.tape.clone()) };
+    let r = run_one(&prop, &rep.plan, tape);
     let digest = format!("{:016x}", r.out.world.hist_hash);
     for l in render_trace(&r.out, 80) {
         println!("{}", l);
@@ -472,26 +540,37 @@ pub fn check(id: &str, tier: Tier) -> i32 {
         Tier::Quick => 150.0,
         Tier::Thorough => 2400.0,
     });
-    let mut kids = Vec::new();
-    for k in 0..n.min(total.max(1)) {
-        let out = tmp.join(format!("{}-{}-{}.json", id, std::process::id(), k));
+    let spawn = |k: u64, start: u64, gen: u32| {
+        let out = tmp.join(format!("{}-{}-{}-{}.json", id, std::process::id(), k, gen));
         let child = std::process::Command::new(&exe)
-            .args(["worker", id, if tier == Tier::Quick { "quick" } else { "thorough" }, &base.to_string(), &k.to_string(), &n.to_string(), &total.to_string(), out.to_str().unwrap(), &deadline_s.to_string()])
+            .args(["worker", id, if tier == Tier::Quick { "quick" } else { "thorough" }, &base.to_string(), &start.to_string(), &n.to_string(), &total.to_string(), out.to_str().unwrap(), &deadline_s.to_string()])
             .env("TZ", "UTC")
             .spawn()
             .expect("spawn worker");
-        kids.push((child, out));
+        (child, out, gen)
+    };
+    let mut kids = Vec::new();
+    for k in 0..n.min(total.max(1)) {
+        kids.push(spawn(k, k, 0));
     }
     let mut agg = Agg::default();
     let mut harness_error = false;
-    for (mut c, out) in kids {
+    while let Some((mut c, out, gen)) = kids.pop() {
         let st = c.wait().expect("wait");
         if !st.success() {
             eprintln!("HARNESS ERROR: worker exited with {:?}", st);
             harness_error = true;
         }
         match std::fs::read(&out).ok().and_then(|b| serde_json::from_slice::<Agg>(&b).ok()) {
-            Some(a) => agg.merge(a),
+            Some(a) => {
+                // a child that met a spinning execution stops there: carry on after that index
+                if let Some(at) = a.aborted_at {
+                    if gen < 8 && at + n < total {
+                        kids.push(spawn(at % n, at + n, gen + 1));
+                    }
+                }
+                agg.merge(a)
+            }
             None => harness_error = true,
         }
         let _ = std::fs::remove_file(&out);
@@ -521,20 +600,31 @@ pub fn check(id: &str, tier: Tier) -> i32 {
         }
         new_viol += 1;
         exit = 1;
-        if minimised >= 5 {
-            println!("VIOLATION property={} replay=<not minimised: more than 5 distinct violations> signature={}", f.violation.property, sig);
-            continue;
-        }
+        let do_minimise = minimised < 5;
         minimised += 1;
         // regenerate, re-run in search mode to obtain the tape, minimise, write the replay file
         let plan = (prop.gen)(scen::run_seed(base, f.idx), f.idx, tier);
+        if f.violation.class == "task_spins_without_io" {
+            // cannot be re-executed in this process (it would spin here too): the replay file holds
+            // the plan; `simcheck replay` runs it under the same watchdog
+            let rep = Replay { property: prop.id.to_string(), seed: plan.seed, plan: plan.clone(), tape: vec![], violation: f.violation.clone(), history_digest: "spinning".into(), events: vec![], repo_tree: repo_tree() };
+            let dir = verif_dir().join("replays");
+            let _ = std::fs::create_dir_all(&dir);
+            let path = dir.join(format!("{}-{}-spin.json", prop.id, plan.seed));
+            let _ = std::fs::write(&path, serde_json::to_vec_pretty(&rep).unwrap());
+            println!("  {} — {}", sig, f.violation.detail);
+            println!("VIOLATION property={} replay={}", f.violation.property, path.display());
+            continue;
+        }
         let first = run_one(&prop, &plan, dsim::Tape::search(plan.seed));
         let tape = first.out.world.tape.recorded.clone();
         if !first.co.violations.iter().any(|v| &v.signature == sig) {
             eprintln!("HARNESS ERROR: violation {} of seed {} did not recur in the parent process", sig, f.seed);
             return 2;
         }
-        let (mp, mt) = minimise(&prop, &plan, &tape, sig, 20.0);
+        // at most five violations are minimised per check; the others are reported with the
+        // plan and tape as found
+        let (mp, mt) = if do_minimise { minimise(&prop, &plan, &tape, sig, 20.0) } else { (plan.clone(), tape.clone()) };
         match write_replay(&prop, &mp, &mt, &f.violation) {
             Some(path) => {
                 // replay the minimised file in a fresh process; it must fail the same way
